@@ -48,7 +48,9 @@ that structured real-world data produces readily), the fourteenth to break the p
 distance (a dependency two or three hops away from the property's home files), the fifteenth to
 leave the main route alone and break the property on an alternative route the library also
 offers (a second entry point, a lower-level API, an in-memory transport, a rarely passed option,
-the second use of an object).
+the second use of an object), the sixteenth was given, per property, the files of its anchor set
+that earlier waves had hardly touched and told to make the change there, in code that looks
+finished and boring.
 All %d changes were
 confirmed by `bin/confirm-seeded` (patch applies to HEAD; `go build ./...`; `go test` of every
 package except the root passes; the demonstration fails with the change and passes without it) and
@@ -111,6 +113,13 @@ built as a literal, Go-value inputs shorter than their array. A coverage measure
 before the wave (section 9) had pointed at two of the four routes (`IOStats.Add` never called; `circuit.Parse` reached only
 through the compiler's `native()` with Bristol files); it had also put the library's in-memory pipes and the step-by-step OT transfer
 objects under the checks, which no agent of this wave happened to choose.
+The sixteenth wave (files hardly touched before): seven caught at once, seven after an extension -
+the highest miss rate since the tenth wave, and the misses are of one kind: the *oracle or fault
+model* lacked something, not the generator. An altered sha2pc message was followed no further
+than "does not crash"; writes to the shared circuit value were invisible unless they changed a
+result; a streaming session that broke was put aside before its transcript was scanned; accept
+queues were FIFO; the choice buffer of the pure helpers was never touched again by its owner.
+Each became a clause or a fault kind that is stated for the unchanged tree and holds there.
 
 ''' % (ordn[len(waves) - 1].capitalize(), len(rows), len(own), len(missed), len(rows), per_wave, ', '.join(m['name'] for m in notcaught))
 out += '''| change | property | what was changed | needs | clause that fires | missed at first? |
